@@ -103,7 +103,14 @@ pub fn parse_byte_list(input: &str) -> Result<Vec<u8>, DataError> {
         }
     }
 
-    let real_len = input.len() - start_quote_count * 2;
+    // lengths are in characters; a literal made only of quotes (`''`) is the empty byte list
+    let char_count = input.chars().count();
+
+    if start_quote_count * 2 >= char_count {
+        return Ok(bytes);
+    }
+
+    let real_len = char_count - start_quote_count * 2;
 
     if start_quote_count >= 2 {
         parse_byte_list_numbers(&input[start_quote_count..(input.len() - start_quote_count)])
